@@ -48,6 +48,9 @@ def rule_recheck_after_wait(rep, rid, prog, fname, field, waits, need_acquire=Tr
             o = i.d.get("ord", "na")
             return o != "na" and (ord_has_acquire(o) or not need_acquire)
         return True
+    if not any(field in prog.fields(i) for i in fn.all_insts() if i.op in ("load", "store", "cmpxchg", "atomicrmw")) and not reload_calls:
+        rep.unknown(rid, "anchor vanished: %s never touches a field named %s (renamed?)" % (fname, field))
+        return
     for w in wcalls:
         res = paths.walk(fn, w, lambda i: False, avoid=reread)
         exits = [r for r in res if r[0] == "exit"]
